@@ -324,6 +324,15 @@ def g_rules(p: Project, rep: Report):
         return None, None
 
     rk, wk = handler_keys(rc), handler_keys(a2c)
+    rk_fn = rc
+    if not rk:
+        # the table may live in a function read_config() calls for each option (a `config2arg` mirroring arg2config)
+        om_ = p.module(OFXGET)
+        for c_ in [x for x in ast.walk(rc) if isinstance(x, ast.Call) and isinstance(x.func, ast.Name)]:
+            callee = next((st for st in om_.tree.body if isinstance(st, ast.FunctionDef) and st.name == c_.func.id), None)
+            if callee is not None and handler_keys(callee):
+                rk, rk_fn = handler_keys(callee), callee
+                break
     if not rk:
         rep.note("G-R3 undecided: read_config() has no type-keyed table of getters")
     if not wk:
@@ -339,6 +348,23 @@ def g_rules(p: Project, rep: Report):
             h = rk[t]
             if isinstance(h, ast.Attribute):
                 rep.check("G-R3", f"reader[{t}]:typed", h.attr == w, f"{t} options are read with {text(h)}, expected .{w}" if h.attr != w else "", gloc(p, rc0))
+            elif t == "bool":
+                # a hand-written boolean reader: ConfigParser's own spellings are 1/yes/true/on and 0/no/false/off
+                # (any case); a reader that knows only one of them reads the others as False
+                par_, body_ = handler_body(rk_fn, h)
+                if body_ is not None and ("getboolean" in text(body_) or "BOOLEAN_STATES" in text(body_)):
+                    rep.check("G-R3", "reader[bool]:typed", True, "", gloc(p, rc0))
+                elif isinstance(body_, ast.Compare) and len(body_.ops) == 1 and isinstance(body_.ops[0], (ast.Eq, ast.In)):
+                    rhs = body_.comparators[0]
+                    toks = [rhs.value] if isinstance(rhs, ast.Constant) else ([e.value for e in rhs.elts if isinstance(e, ast.Constant)] if isinstance(rhs, (ast.Tuple, ast.List, ast.Set)) else None)
+                    if toks is not None:
+                        truths = {k for k, v in configparser.RawConfigParser.BOOLEAN_STATES.items() if v}
+                        missing = sorted(truths - {str(x).lower() for x in toks})
+                        rep.check("G-R3", "reader[bool]:typed", not missing, f"boolean options are read as `{text(body_)[:50]}`: the spellings {missing} - legal in an INI file and in the bundled FI database's format - are read as False, so a flag the user's file sets does not take effect" if missing else "", gloc(p, rc0))
+                    else:
+                        rep.note(f"G-R3 undecided: reader for bool is {text(h)[:60]}")
+                else:
+                    rep.note(f"G-R3 undecided: reader for bool is {text(h)[:60]}")
             else:
                 rep.note(f"G-R3 undecided: reader for {t} is {text(h)[:60]}")
     # bool writer polarity
@@ -363,12 +389,31 @@ def g_rules(p: Project, rep: Report):
         if body is None:
             rep.note("G-R3 undecided: list writer not recognised")
         else:
+            from .fold import fold as _fold_l
+
             t = text(body).replace(par, "value") if par else text(body)
-            ok = "str(value)" in t and "strip('[]')" in t
+            # writer: str(list) with the brackets and quotes removed (', ' separated), or <sep>.join(...) with a
+            # separator made of one comma and blanks
+            w_ok = "str(value)" in t and "strip('[]')" in t
+            if not w_ok and isinstance(body, ast.Call) and isinstance(body.func, ast.Attribute) and body.func.attr == "join":
+                sep_ = _fold_l(body.func.value, {}, p, OFXGET)
+                w_ok = isinstance(sep_, str) and sep_.count(",") == 1 and sep_.replace(",", "").strip() == ""
+            # reader: splits on the comma ALONE and trims each piece - so that `a,b`, `a, b` and lists continued over
+            # lines are all read; a reader that splits on the writer's ', ' reads a hand-written `a,b` as ONE account
             cl = _fn(p, "convert_list")
-            rt = " ".join(text(r.value) for r in own_nodes(cl) if isinstance(r, ast.Return) and r.value is not None)
-            ok = ok and "split(',')" in rt and ".strip()" in rt
-            rep.check("G-R3", "writer[list]/reader[list]:separator", ok, "list writer and list reader disagree on the ', ' separated form" if not ok else "", gloc(p, a2c0))
+            splits = [c_ for c_ in ast.walk(cl) if isinstance(c_, ast.Call) and isinstance(c_.func, ast.Attribute) and c_.func.attr == "split"]
+            seps = [_fold_l(c_.args[0], {}, p, OFXGET) if c_.args else None for c_ in splits]
+            strips = any(isinstance(c_, ast.Call) and isinstance(c_.func, ast.Attribute) and c_.func.attr == "strip" and not c_.args for c_ in ast.walk(cl))
+            if not splits or any(not isinstance(s_, str) for s_ in seps):
+                rep.note("G-R3 undecided: list reader not recognised")
+            else:
+                r_ok = all(s_ == "," for s_ in seps) and strips
+                why_ = ""
+                if not r_ok:
+                    why_ = f"the list reader splits on {seps[0]!r}" + ("" if strips else " and does not trim the pieces") + ": a list written `111,222` (no blank - the form the documentation shows) or continued over lines is read as one bogus account id, so none of the configured accounts is requested"
+                elif not w_ok:
+                    why_ = "list writer and list reader disagree on the ', ' separated form"
+                rep.check("G-R3", "writer[list]/reader[list]:separator", r_ok and w_ok, why_, gloc(p, a2c0 if r_ok else cl))
     # mk_server_cfg writes every CONFIGURABLE option present, through arg2config, into the server's section
     mk0 = _fn(p, "mk_server_cfg")
     mk = flat(p, OFXGET, mk0)
@@ -1010,3 +1055,32 @@ def g_r8_flags_reach_client(p: Project, rep: Report):
             else:
                 rep.note(f"G-R8 undecided: default of OFXClient.{k.arg} not a constant")
     rep.unit("client_flags_passed_or_none", n)
+
+
+def g_r9_same_section(p: Project, rep: Report):
+    """what --write saves under a nickname is what a later run reads under that nickname"""
+    import re as _re
+
+    rep.rule("G-R9", "the user's section is read under the key it is written under: merge_config() reads the section named by the `server` option as given, and mk_server_cfg() writes to the section named by the same option as given - if either side transforms the name (case-folding, a lookup that prefers another section) and the other does not, the settings saved with --write are not the ones the next run reads, and a like-named FI-database section outranks the user's own")
+    mc = flat(p, OFXGET, _fn(p, "merge_config"), keep=("read_config",))
+    mk = flat(p, OFXGET, _fn(p, "mk_server_cfg"))
+    mcx, mkx = Expander(mc), Expander(mk)
+
+    def norm_(t: str) -> str:
+        t = _re.sub(r"\b_?args\b", "A", t)
+        t = t.replace('"', "'")
+        # wrappers that only select entries of the mapping (the name itself is passed through unchanged)
+        for _ in range(3):
+            t = _re.sub(r"\b(extractns|extrargs|vars|dict|ChainMap)\(A\)", "A", t)
+        t = _re.sub(r"A\.get\('server'(, None)?\)", "A['server']", t)
+        return t
+
+    reads = [c for c in ast.walk(mc) if isinstance(c, ast.Call) and text(c.func) == "read_config" and len(c.args) == 2 and "server" in mcx.t(c.args[1])]
+    writes = [s.value for s in ast.walk(mk) if isinstance(s, ast.Subscript) and text(s.value) == "USERCFG" and "server" in mkx.t(s.slice)]
+    wkeys = {norm_(mkx.t(s.slice)) for s in ast.walk(mk) if isinstance(s, ast.Subscript) and text(s.value) == "USERCFG" and "server" in mkx.t(s.slice)}
+    rkeys = {norm_(mcx.t(c.args[1])) for c in reads}
+    if not rkeys or not wkeys:
+        rep.note("G-R9 undecided: the section read by merge_config / written by mk_server_cfg was not recognised")
+        return
+    ok = rkeys == wkeys
+    rep.check("G-R9", "merge_config/mk_server_cfg:same-section", ok, f"merge_config reads section {sorted(rkeys)} while mk_server_cfg writes section {sorted(wkeys)}: a nickname for which the two differ (another section whose name matches after the transformation, e.g. [Power] of the FI database for `power`) is saved in one place and read from another" if not ok else "", gloc(p, reads[0]))
